@@ -567,11 +567,28 @@ theorem proj_foldl {β} (f : St → β → St) (hf : ∀ s x, proj (f s x) = pro
   · split
     · rfl
     · split <;> rfl
-@[simp] theorem proj_detachConv (s : St) (n c : String) : proj (detachConv s n c) = proj s := by
+-- CHANGED (dropped): `outputDropped` is a lock-neutral change followed (possibly) by `startTagging`
+theorem proj_outputDropped (s : St) (choice : Option String) :
+    ∃ s0, proj s0 = proj s ∧ (outputDropped s choice = s0 ∨ outputDropped s choice = startTagging s0 choice) := by
+  unfold outputDropped
+  split
+  · refine ⟨_, ?_, Or.inr rfl⟩
+    rw [proj_invalidatedDuringTaggingJob, proj_inherit]
+    rfl
+  · exact ⟨s, rfl, Or.inl rfl⟩
+
+-- CHANGED (dropped): `detachConv` takes the tagging choice and may start a tagging job (was: `proj (detachConv s n c) = proj s`)
+theorem proj_detachConv (s : St) (n c : String) (choice : Option String) :
+    ∃ s0, proj s0 = proj s ∧
+      (detachConv s n c choice = s0 ∨ detachConv s n c choice = startTagging s0 choice) := by
   unfold detachConv
   split
-  · rfl
+  · exact ⟨s, rfl, Or.inl rfl⟩
   · simp only []
-    split <;> rfl
+    split
+    · refine (proj_outputDropped _ choice).imp fun s0 h => ⟨?_, h.2⟩
+      exact h.1.trans rfl
+    · refine ⟨_, ?_, Or.inl rfl⟩
+      rfl
 
 end Pk.Proofs.MgrLocks
